@@ -1,4 +1,5 @@
 import Amgcl.Proofs.AdaptersBlockIter
+import Mathlib.Data.List.GetD
 /-!
 The row iterator of `block_matrix_adapter`, part 2: the whole iteration on `b` strictly sorted scalar rows.
 -/
@@ -41,6 +42,16 @@ theorem totalLen_map_lt (f : Row K → Row K) (rs : List (Row K)) (hle : ∀ r, 
       have := hle r
       omega
 
+theorem totalLen_zero (rs : List (Row K)) (h : totalLen rs = 0) : ∀ r ∈ rs, r = [] := by
+  induction rs with
+  | nil => intro r hr; cases hr
+  | cons r0 t ih =>
+    rw [totalLen_cons] at h
+    intro r hr
+    rcases List.mem_cons.1 hr with rfl | hm
+    · exact List.length_eq_zero_iff.1 (by omega)
+    · exact ih (by omega) r hm
+
 /-- in a strictly sorted row everything that survives `dropWhile (col < e)` has column `≥ e` -/
 theorem dropWhile_ge {r : Row K} (hs : StrictCols r) (e : Nat) :
     ∀ cv ∈ r.dropWhile (fun cv => decide (cv.1 < e)), e ≤ cv.1 := by
@@ -66,6 +77,8 @@ structure IterSpec (b : Nat) (rs : List (Row K)) (out : Row (Blk K)) : Prop wher
   get : ∀ i, i < rs.length → ∀ col, rowGet (unblockRow b i out) col = rowGet (rs.getD i []) col
   /-- every produced block column is the block column of some scalar entry -/
   cols : ∀ o ∈ out, ∃ r ∈ rs, ∃ cv ∈ r, o.1 = cv.1 / b
+  /-- every scalar entry lies in a produced block -/
+  complete : ∀ r ∈ rs, ∀ cv ∈ r, ∃ o ∈ out, o.1 = cv.1 / b
   /-- block columns strictly increase -/
   sorted : out.Pairwise (fun a c => a.1 < c.1)
   /-- every block has `b*b` slots -/
@@ -76,15 +89,10 @@ theorem blockIter_spec (b : Nat) (hb : 0 < b) (fuel : Nat) (rs : List (Row K)) (
   induction fuel generalizing rs with
   | zero =>
     -- no entries at all
-    have hall : ∀ r ∈ rs, r = [] := by
-      intro r hr
-      have h0 : totalLen rs = 0 := Nat.le_zero.1 hfuel
-      rw [totalLen_eq] at h0
-      have : r.length = 0 := by
-        have hm : r.length ∈ rs.map List.length := List.mem_map.2 ⟨r, hr, rfl⟩
-        exact Nat.le_zero.1 (h0 ▸ List.single_le_sum (fun _ _ => Nat.zero_le _) _ hm)
-      exact List.length_eq_zero_iff.1 this
-    refine ⟨?_, by intro o ho; cases ho, List.Pairwise.nil, by intro o ho; cases ho⟩
+    have hall : ∀ r ∈ rs, r = [] := totalLen_zero rs (Nat.le_zero.1 hfuel)
+    show IterSpec b rs []
+    refine ⟨?_, (by intro o ho; cases ho), (by intro r hr cv hcv; rw [hall r hr] at hcv; cases hcv),
+      List.Pairwise.nil, (by intro o ho; cases ho)⟩
     intro i hi col
     have : rs.getD i [] = [] := by
       rw [List.getD_eq_getElem _ _ hi]; exact hall _ (List.getElem_mem hi)
@@ -94,7 +102,8 @@ theorem blockIter_spec (b : Nat) (hb : 0 < b) (fuel : Nat) (rs : List (Row K)) (
     cases hcur : curCol b rs with
     | none =>
       have hall := (curCol_none_iff b rs).1 hcur
-      refine ⟨?_, by intro o ho; cases ho, List.Pairwise.nil, by intro o ho; cases ho⟩
+      refine ⟨?_, (by intro o ho; cases ho), (by intro r hr cv hcv; rw [hall r hr] at hcv; cases hcv),
+      List.Pairwise.nil, (by intro o ho; cases ho)⟩
       intro i hi col
       have : rs.getD i [] = [] := by
         rw [List.getD_eq_getElem _ _ hi]; exact hall _ (List.getElem_mem hi)
@@ -142,17 +151,16 @@ theorem blockIter_spec (b : Nat) (hb : 0 < b) (fuel : Nat) (rs : List (Row K)) (
             _ ≤ b * b := Nat.mul_le_mul_right b hi
         have hz : v0.getD ((0 + i) * b + k) 0 = 0 := by
           rw [hv0]; simp [Array.getD]
-          split <;> rfl
         have := gatherAll_snd b hb c 0 rs v0 hs hcall i k hi' hk hsz hz
         rw [Nat.zero_add] at this
         rw [this, List.getD_eq_getElem _ _ hi']
-      refine ⟨?_, ?_, ?_, ?_⟩
+      refine ⟨?_, ?_, ?_, ?_, ?_⟩
       · intro i hi col
         have hib : i < b := by rw [← hlen]; exact hi
         rw [unblockRow_cons, rowGet_append, rowGet_block_entries b hb, IH.get i (by rw [hlen', ← hlen]; exact hi) col]
         have hrest : rests.getD i [] = (rs.getD i []).dropWhile (fun cv => decide (cv.1 < e)) := by
-          rw [List.getD_eq_getElem _ _ (by rw [hlen', ← hlen]; exact hi), List.getD_eq_getElem _ _ hi, hrests,
-            List.getElem_map]
+          rw [List.getD_eq_getElem _ _ (by rw [hlen', ← hlen]; exact hi), List.getD_eq_getElem _ _ hi]
+          simp only [hrests, List.getElem_map]
         rw [hrest]
         set r := rs.getD i [] with hr
         have hrmem : r ∈ rs := by rw [hr, List.getD_eq_getElem _ _ hi]; exact List.getElem_mem hi
@@ -179,6 +187,17 @@ theorem blockIter_spec (b : Nat) (hb : 0 < b) (fuel : Nat) (rs : List (Row K)) (
         · obtain ⟨r, hr, cv, hcv, e'⟩ := IH.cols o ho'
           obtain ⟨r0, hr0, rfl⟩ := List.mem_map.1 hr
           exact ⟨r0, hr0, cv, (List.dropWhile_sublist _).subset hcv, e'⟩
+      · intro r hr cv hcv
+        rw [← List.takeWhile_append_dropWhile (p := fun cv => decide (cv.1 < e)) (l := r)] at hcv
+        rcases List.mem_append.1 hcv with hcv | hcv
+        · refine ⟨_, List.mem_cons_self, ?_⟩
+          have h1 : c ≤ cv.1 / b := hcall r hr cv (List.takeWhile_subset _ hcv)
+          have h2 : cv.1 < e := by simpa using List.mem_takeWhile_imp hcv
+          have h3 : cv.1 / b < c + 1 := (Nat.div_lt_iff_lt_mul hb).2 h2
+          show c = cv.1 / b
+          omega
+        · obtain ⟨o, ho, e'⟩ := IH.complete _ (List.mem_map.2 ⟨r, hr, rfl⟩) cv hcv
+          exact ⟨o, List.mem_cons_of_mem _ ho, e'⟩
       · refine List.pairwise_cons.2 ⟨?_, IH.sorted⟩
         intro o ho
         obtain ⟨r, hr, cv, hcv, e'⟩ := IH.cols o ho
